@@ -404,6 +404,20 @@ class Interp:
                 return Compl(self.coll(a, c), "xor" if t[1] == "^" else "x-c")
         if c is not None and self.is_c(t, c):
             return Single("SELF")
+        # c | {i}  /  c & ~{i}  for single players i: supersets / subsets ONE player away (a strict restriction)
+        if t[0] == "bin" and t[1] in ("|", "&") and c is not None:
+            a, b = t[2], t[3]
+            other = b if self.is_c(a, c) else (a if self.is_c(b, c) else None)
+            if other is not None:
+                neg = False
+                if other[0] == "un" and other[1] == "~":
+                    neg, other = True, other[2]
+                single = other[0] == "bin" and ((other[1] == "<<" and other[2] == ("const", 1)) or (other[1] == "**" and other[2] == ("const", 2))) \
+                    and is_call_to(other[3], "numpy.arange", "range")
+                if single and t[1] == "|" and not neg:
+                    return Coll(frozenset({SELF, PSUPER}), restricted=True, why_restricted="only supersets one player larger")
+                if single and t[1] == "&" and neg:
+                    return Coll(frozenset({SELF, PSUB, EMPTY}), restricted=True, why_restricted="only subsets one player smaller")
         self.unrecognised.append(f"collection {show(t)[:100]}")
         return Coll(ALL_CLASSES, restricted=True, why_restricted="unrecognised", unrecognised=True)
 
